@@ -157,7 +157,7 @@ class RowLookupWorld:
 
     # -------------------------------------------------------------------------------------------- observation
     @staticmethod
-    def outcome(fn):
+    def outcome(fn, attr=False):
         from sqlalchemy import exc
         try:
             return ("val", fn())
@@ -168,8 +168,9 @@ class RowLookupWorld:
                 return ("Amb", None)
             return ("exc", "InvalidRequestError: %s" % e)
         except AttributeError as e:
-            # Row.__getattr__ turns a missing key into AttributeError
-            return ("NoSuch", None)
+            if attr and "Could not locate column in row" in str(e):
+                return ("NoSuch", None)       # Row.__getattr__ turns the NoSuchColumnError of a missing key into AttributeError
+            return ("exc", "AttributeError: %s" % e)
         except Exception as e:            # anything else is reported as it is
             return ("exc", "%s: %s" % (type(e).__name__, e))
 
@@ -194,7 +195,7 @@ class RowLookupWorld:
                     r["rows"] = [list(x) for x in rows]
                     row = rows[0]
                     r["str"] = {k: self.outcome(lambda: row._mapping[k]) for k in case["strkeys"]}
-                    r["attr"] = {k: self.outcome(lambda: getattr(row, k)) for k in case["strkeys"] if k.isidentifier() and not k.startswith("_")}
+                    r["attr"] = {k: self.outcome(lambda: getattr(row, k), attr=True) for k in case["strkeys"] if k.isidentifier() and not k.startswith("_")}
                     r["obj"] = {k: self.outcome(lambda: row._mapping[om[k]]) for k in case["objkeys"] if k in om}
                     r["posobj"] = [self.outcome(lambda: row._mapping[o]) for o in posobjs]
                     r["rows_posobj"] = [[self.outcome(lambda: x._mapping[o]) for o in posobjs] for x in rows]
@@ -838,7 +839,6 @@ class ConstructBuilder:
 
     def _wrap(self, e, s):
         sa, t, u = self.sa, self.t, self.u
-        other = sa.select(*[sa.literal(0)] * 1) if False else None
         if e == "none":
             return s
         ncols = len(s.selected_columns) if hasattr(s, "selected_columns") else 2
@@ -1070,7 +1070,6 @@ class ConstructBuilder:
             return base
         g, feat = x["a"], x["b"]
         I = sa.Integer
-        pref = (lambda n: ("sch1." + n) if m.schema else n)
         extra_cols, targs, tkw = [], [], {}
         if feat == "index":
             extra_cols = [sa.Column("ival", I, index=True)]
@@ -1207,7 +1206,6 @@ def dialect_variants():
     from sqlalchemy.dialects import mssql, mysql, oracle, postgresql, sqlite
     from sqlalchemy.dialects.mysql import mariadb as _mariadb
     from sqlalchemy.dialects.postgresql import asyncpg as _asyncpg
-    from sqlalchemy.dialects.sqlite import aiosqlite as _aiosqlite
 
     def ver(factory, **attrs):
         def make():
